@@ -130,7 +130,7 @@ def flag_subcommand_lookup_canonical(fx, res, rule):
                         n += 1
                         res.violation(rule, "lemma|flag-subcommand-lookup-answers-name|" + q.rsplit("::", 1)[1], rhs.where(),
                                       "%s answers with the element %s(..) found (an alias / flag text), not with the subcommand's get_name(): Parser::parse resolves the answer with find_subcommand(..).expect(..), which does not know flag-alias spellings — `--<alias>` panics" % (q.rsplit("::", 1)[1], cq.rsplit("::", 1)[1]))
-    res.floor(rule, "Option<&str> answers of the flag-subcommand lookups", n, 4)
+    res.floor(rule, "Option<&str> answers of the flag-subcommand lookups", n, 1)
 
 
 def osstr_find_complete(fx, res, rule):
